@@ -49,12 +49,15 @@ class Translator:
 
     AGGS = ("Min", "Max", "Count", "Sum")
 
-    def __init__(self, schemas, params=None, coltypes=None, colparams=None):
+    def __init__(self, schemas, params=None, coltypes=None, colparams=None, colparamtypes=None):
         self.schemas = schemas
         self.coltypes = coltypes if coltypes is not None else {}
         # column name -> Lean variable of type `Expr`: a column reference with that (marker) name stands for an opaque scalar expression
         # the code interpolates into the statement (e.g. an equi-join key); it is not resolved against the schema
         self.colparams = dict(colparams or {})
+        # marker column name -> type of the expression it stands for (default 'any'); 'num' = a number, integer or not (a parameter
+        # literal whose text may be `5` or `0.25`): `cast(x as float)` of it is `Expr.toRat x`, which is right for both
+        self.colparamtypes = dict(colparamtypes or {})
         self.params = {k: (v if isinstance(v, tuple) else (v, "any")) for k, v in (params or {}).items()}
         self.notes: list[str] = []
         self.used_params: list[str] = []
@@ -113,7 +116,7 @@ class Translator:
                 t = self._colparam(e.name)
                 if t not in g["keys"]:
                     raise Untranslatable(f"{e.sql()} is used next to aggregates but is not a group key")
-                return f"(Expr.col {g['keys'].index(t)})", "any"
+                return f"(Expr.col {g['keys'].index(t)})", self.colparamtypes.get(e.name, "any")
             if isinstance(e, exp.Column):
                 i = self.resolve(e, g["scope"])
                 t = f"(Expr.col {i})"
@@ -121,7 +124,7 @@ class Translator:
                     raise Untranslatable(f"{e.sql()} is used next to aggregates but is not a group key")
                 return f"(Expr.col {g['keys'].index(t)})", g["scope"][i][2]
         if isinstance(e, exp.Column) and not e.table and e.name in self.colparams:
-            return self._colparam(e.name), "any"
+            return self._colparam(e.name), self.colparamtypes.get(e.name, "any")
         if isinstance(e, exp.Column):
             i = self.resolve(e, scope)
             return f"(Expr.col {i})", scope[i][2]
@@ -180,11 +183,11 @@ class Translator:
         for k, v in ar.items():
             if type(e) is k:
                 (a, ta), (b, tb) = self.expr_t(e.this, scope), self.expr_t(e.expression, scope)
-                if not (ta in ("int", "rat") and tb in ("int", "rat")):
+                if not (ta in ("int", "rat", "num") and tb in ("int", "rat", "num")):
                     raise Untranslatable(f"arithmetic on values of type {ta}, {tb}: {e.sql()[:80]}")
-                if v == "div" and ta == "int" and tb == "int":
+                if v == "div" and ta in ("int", "num") and tb in ("int", "num"):
                     raise Untranslatable(f"integer / integer is dialect-dependent (truncating on SQLite and Postgres): {e.sql()[:80]}")
-                return f"(Expr.arith Arith.{v} {a} {b})", ("int" if ta == tb == "int" else "rat")
+                return f"(Expr.arith Arith.{v} {a} {b})", ("int" if ta == tb == "int" else "rat" if "rat" in (ta, tb) else "num")
         if isinstance(e, exp.DPipe):
             (a, ta), (b, tb) = self.expr_t(e.this, scope), self.expr_t(e.expression, scope)
             if not (ta in ("str", "int", "strint") and tb in ("str", "int", "strint")):
@@ -212,8 +215,8 @@ class Translator:
         if isinstance(e, exp.Cast):
             to = e.args["to"].sql().upper()
             a, t = self.expr_t(e.this, scope)
-            if to in ("FLOAT", "FLOAT8", "DOUBLE", "REAL", "FLOAT4", "DOUBLE PRECISION") and t in ("int", "rat"):
-                return (f"(Expr.toRat {a})" if t == "int" else a), "rat"
+            if to in ("FLOAT", "FLOAT8", "DOUBLE", "REAL", "FLOAT4", "DOUBLE PRECISION") and t in ("int", "rat", "num"):
+                return (f"(Expr.toRat {a})" if t != "rat" else a), "rat"
             if to in ("INT", "INTEGER", "BIGINT") and t == "bool":
                 return f"(Expr.boolToInt {a})", "int"  # TRUE -> 1, FALSE -> 0, NULL -> NULL on every dialect splink supports
             if to in ("BIGINT", "INT", "INTEGER", "INT8", "HUGEINT") and t == "int":
@@ -1315,6 +1318,104 @@ def capture_desc():
     return {"tf": tf_sql, "completeness": comp_sql, "errors": errors}
 
 
+# The comparison-vector distribution for ANY list of gamma columns (the four Python comprehensions of
+# `comparison_vector_distribution_sql` as functions of the list); `cvd_generic_k*` check by `rfl` that for lists of length 1, 2, 3 it IS the
+# translation of the statement captured from the real code.
+DESC_CVD_GENERIC = r"""/-- `" || ',' || ".join(gamma_columns)`: the parser reads `a || ',' || b || ',' || c` as `(((a || ',') || b) || ',') || c`; one column: the
+column itself (an integer, not a text).  The real code splices an empty list as nothing, a syntax error: `[]` stands for no SQL. -/
+def gamConcat : List Expr → Expr
+  | [] => Expr.lit (Val.str "")
+  | e :: es => es.foldl (fun acc g => (Expr.concat (Expr.concat acc (Expr.lit (Val.str ","))) g)) e
+
+/-- `case_tem`: `(case when g = -1 then 0 when g = 0 then -1 else g end)` -/
+def sumGamTerm (g : Expr) : Expr :=
+  (Expr.case (Expr.cmp Cmp.eq g (Expr.arith Arith.sub (Expr.lit (Val.int (0))) (Expr.lit (Val.int (1))))) (Expr.lit (Val.int (0))) (Expr.case (Expr.cmp Cmp.eq g (Expr.lit (Val.int (0)))) (Expr.arith Arith.sub (Expr.lit (Val.int (0))) (Expr.lit (Val.int (1)))) g))
+
+/-- `" + ".join(case_tem …)`, left-associated -/
+def sumGam : List Expr → Expr
+  | [] => Expr.lit (Val.int (0))
+  | e :: es => es.foldl (fun acc g => (Expr.arith Arith.add acc (sumGamTerm g))) (sumGamTerm e)
+
+/-- the `k` group keys of the grouped relation, by position -/
+def keyCols (k : Nat) : List Expr := (List.range k).map fun i => (Expr.col i)
+
+/-- `__splink__df_comparison_vector_distribution` (gam_concat, sum_gam, count_rows_in_comparison_vector_group,
+proportion_of_comparisons, gamma columns…) for the gamma columns `gs` of `cv_in` (= `__splink__df_predict`): the grouped relation has
+the `k = gs.length` keys, then `count(*)`, then the scalar subquery `(select count(*) from cv_in)` -/
+def cvd (gs : List Expr) : Rel :=
+  (Rel.project ([gamConcat (keyCols gs.length), sumGam (keyCols gs.length), (Expr.col gs.length), (Expr.arith Arith.div (Expr.toRat (Expr.col gs.length)) (Expr.col (gs.length + 1)))] ++ keyCols gs.length) (Rel.join false (Expr.lit (Val.bool true)) (Rel.groupBy gs [Agg.countStar] (Rel.table "cv_in")) (Rel.groupBy [] [Agg.countStar] (Rel.table "cv_in")) 1))
+"""
+
+
+def _write_desc2(L, errors):
+    """Appends the comparison-vector distribution, histogram and unlinkables definitions to the lines of Generated/DescSql.lean."""
+    cap = capture_desc2()
+    errors += cap["errors"]
+    L.append("/-! ## Comparison-vector distribution, match-weight histogram, unlinkables")
+    L.append("Captured from `comparison_vector_distribution_sql` (1, 2, 3 comparisons), two runs of `histogram_data` (different widths) and a run of")
+    L.append("`unlinkables_data`.  Tables: `cv_in` / `pred_in` = `__splink__df_predict`; `self_in` = `__splink__df_self_link`.  Parameters:")
+    L.append("`g0 g1 g2` / `gs` = the gamma columns (any expressions over the row); `bin` = the binning expression `<bw> * floor(match_weight / <bw>)`")
+    L.append("(floating point, opaque); `bw` = the width literal; `rw rp` = `round(match_weight, 2)`, `round(match_probability, 5)` (opaque). -/")
+    L.append("")
+    ok = True
+    for k in (1, 2, 3):
+        sql = cap["cvd"].get(k)
+        if sql is None:
+            ok = False
+            continue
+        cp = {f"mkg{i}": f"g{i}" for i in range(k)}
+        tr = Translator({"cv_in": []}, {}, {"cv_in": []}, colparams=cp, colparamtypes={m: "int" for m in cp})
+        try:
+            term, cols = tr.statement(sql)
+        except Untranslatable as e:
+            errors.append(f"desc/cvd k={k}: {e}")
+            ok = False
+            continue
+        want = ["gam_concat", "sum_gam", "count_rows_in_comparison_vector_group", "proportion_of_comparisons"] + [f"mkg{i}" for i in range(k)]
+        if list(cols) != want:
+            errors.append(f"desc/cvd k={k}: output columns {cols}, expected {want}")
+            ok = False
+        L.append(f"/-- `{sql}` ; columns {cols} -/")
+        L.append(f"def K{k}.cvd{''.join(f' (g{i} : Expr)' for i in range(k))} : Rel :=\n  {term}")
+        L.append("")
+    if ok:
+        L.append(DESC_CVD_GENERIC)
+        L.append("/-! For lists of length 1, 2, 3 the generic statement IS the translation of the captured SQL. -/")
+        for k in (1, 2, 3):
+            gs = [f"g{i}" for i in range(k)]
+            L.append(f"theorem cvd_generic_k{k}{''.join(f' ({g} : Expr)' for g in gs)} : cvd [{', '.join(gs)}] = K{k}.cvd {' '.join(gs)} := rfl")
+        L.append("")
+    for key, names, lean_names, base, params, cps, cpt, allp, listname in (
+            ("hist", DESC_HIST, ["histRaw", "hist"], "pred_in", {DESC_HIST_BW: ("bw", "num")}, {DESC_BIN: "bin"}, {DESC_BIN: "rat"},
+             [("bin", "Expr"), ("bw", "Val")], "histStmts"),
+            ("unl", DESC_UNL, ["roundSelfLink", "unlProportions", "unlCumulative"], "self_in", {}, {DESC_RW: "rw", DESC_RP: "rp"},
+             {DESC_RW: "rat", DESC_RP: "rat"}, [("rw", "Expr"), ("rp", "Expr")], "unlStmts")):
+        stmts = cap[key]
+        if stmts is None:
+            continue
+        sch, ty = {base: []}, {base: []}
+        calls = []
+        for (nm, sql), ln in zip(stmts, lean_names):
+            tr = Translator(sch, params, ty, colparams=cps, colparamtypes=cpt)
+            try:
+                term, cols = tr.statement(sql)
+            except Untranslatable as e:
+                errors.append(f"desc/{key}/{nm}: {e}")
+                L.append(f"-- UNTRANSLATABLE: {nm}")
+                break
+            sch[nm] = [c if c is not None else f"_c{i}" for i, c in enumerate(cols)]
+            ty[nm] = list(tr.out_types)
+            used = [(v, t) for v, t in allp if v in tr.used_params]
+            L.append(f"/-- `{nm}`: `{sql}` ; columns {cols} -/")
+            L.append(f"def {ln}{''.join(f' ({v} : {t})' for v, t in used)} : Rel :=\n  {term}")
+            L.append("")
+            calls.append(f"⟨{lean_str(nm)}, {ln}{''.join(' ' + v for v, _ in used)}⟩")
+        else:
+            L.append(f"/-- the statements in the order the code enqueues them -/")
+            L.append(f"def {listname}{''.join(f' ({v} : {t})' for v, t in allp)} : List Stmt :=\n  [{', '.join(calls)}]")
+            L.append("")
+
+
 def write_desc() -> list[str]:
     """(Re)generate Generated/DescSql.lean.  Returns error strings."""
     cap = capture_desc()
@@ -1338,12 +1439,122 @@ def write_desc() -> list[str]:
         else:
             L.append(f"def {name} : Rel :=\n  {term}")
         L.append("")
+    try:
+        _write_desc2(L, errors)
+    except Exception as e:  # noqa: BLE001
+        errors.append(f"comparison-vector distribution / histogram / unlinkables: capture failed: {type(e).__name__}: {str(e)[:300]}")
     L.append("end SplinkVerif.Gen.DescSql")
     text = "\n".join(L) + "\n"
     p = GEN / "DescSql.lean"
     if not p.exists() or p.read_text() != text:
         p.write_text(text)
     return errors
+
+
+# --------------------------------------------------------------------------------------------------------------- descriptive spec, part 2
+DESC_HIST_BW = "777.25"  # stands for the bin-width literal `_bins` chose (its text is `5` or `0.25`, depending on the data)
+DESC_BIN = "mkbin"  # marker column: the binning expression `<bw> * floor(match_weight / <bw>)` (floating point: opaque in the model)
+DESC_RW, DESC_RP = "mkrw", "mkrp"  # marker columns: `round(match_weight, 2)`, `round(match_probability, 5)` (opaque)
+DESC_HIST = ["__splink__df_hist_raw", "__splink__df_hist"]
+DESC_UNL = ["__splink__df_round_self_link", "__splink__df_unlinkables_proportions", "__splink__df_unlinkables_proportions_cumulative"]
+
+
+def _desc2_linker(cols):
+    import pandas as pd
+
+    import splink.comparison_library as cl
+    from splink import DuckDBAPI, Linker, SettingsCreator, block_on
+
+    df = pd.DataFrame({"unique_id": list(range(7)), "a": ["x", "x", "y", "y", "z", "z", None], "b": ["p", "q", "p", "p", "q", "q", "p"],
+                       "c": ["p", "q", "p", None, "q", "q", "r"]})
+    settings = SettingsCreator(link_type="dedupe_only", comparisons=[cl.ExactMatch(c) for c in cols],
+                               blocking_rules_to_generate_predictions=[block_on("a"), block_on("b")])
+    return Linker(df, settings, DuckDBAPI())
+
+
+def capture_desc2():
+    """The three remaining descriptive statements of C20.
+
+    * `comparison_vector_distribution_sql(linker)` for 1, 2, 3 comparisons (in different column orders); the gamma columns become
+      marker columns `mkg<i>`, the table `cv_in`;
+    * `histogram_data` run twice (different `num_bins`, hence different widths): the two statements of `_hist_sql`; the width
+      literal becomes `DESC_HIST_BW`, the binning expression (which must be the same text in SELECT and GROUP BY) the marker `mkbin`;
+    * `unlinkables_data`: its three statements; the two `round(...)` expressions become the markers `mkrw`, `mkrp`."""
+    from splink.internals.comparison_vector_distribution import comparison_vector_distribution_sql
+    from splink.internals.match_weights_histogram import histogram_data
+    from splink.internals.unlinkables import unlinkables_data
+
+    errors = []
+    out = {"cvd": {}, "hist": None, "unl": None, "errors": errors}
+    linkers = {}
+    for cols in (["a"], ["b", "a"], ["a", "b", "c"]):
+        k = len(cols)
+        linker = linkers[k] = _desc2_linker(cols)
+        try:
+            sql = _norm(comparison_vector_distribution_sql(linker))
+        except Exception as e:  # noqa: BLE001
+            errors.append(f"comparison_vector_distribution_sql raised {type(e).__name__}: {str(e)[:200]}")
+            continue
+        gcols = [c._gamma_column_name for c in linker._settings_obj.comparisons]
+        sql = _subst(sql, {g: f"mkg{i}" for i, g in enumerate(gcols)})
+        sql = _subst(sql, {"__splink__df_predict": "cv_in"})
+        out["cvd"][k] = sql
+    # histogram: two real runs with different numbers of bins
+    hist = []
+    linker = linkers[3]
+    pred = linker.inference.predict()
+    for nb in (3, 100):
+        with Capture() as cap:
+            histogram_data(linker, pred, nb)
+        found = {}
+        for ex in cap.rec:
+            for nm, sql in ex["ctes"]:
+                found[nm] = _subst(_norm(sql), _phys_map(cap.rec))
+        if any(nm not in found for nm in DESC_HIST):
+            errors.append(f"histogram_data did not emit {[nm for nm in DESC_HIST if nm not in found]}")
+            break
+        m = re.search(r"select (\S+) \* floor\(match_weight / (\S+)\) as splink_score_bin_low", found[DESC_HIST[0]])
+        if not m or m.group(1) != m.group(2) or not re.fullmatch(r"\d+(\.\d+)?", m.group(1)):
+            errors.append(f"{DESC_HIST[0]}: the bin is no longer `<bw> * floor(match_weight / <bw>)`: {found[DESC_HIST[0]][:300]}")
+            break
+        bw = m.group(1)
+        binexpr = f"{bw} * floor(match_weight / {bw})"
+        stmts = []
+        for nm in DESC_HIST:
+            sql = found[nm].replace(binexpr, DESC_BIN)
+            sql = re.sub(r"(?<![A-Za-z0-9_.])" + re.escape(bw) + r"(?![A-Za-z0-9_.])", DESC_HIST_BW, sql)
+            sql = _subst(sql, {"__splink__df_predict": "pred_in"})
+            stmts.append((nm, sql))
+        hist.append((bw, stmts))
+    if len(hist) == 2:
+        if hist[0][0] == hist[1][0]:
+            errors.append(f"the two histogram runs chose the same width {hist[0][0]} (capture instance too uniform)")
+        if hist[0][1] != hist[1][1]:
+            errors.append(f"the histogram statements differ by more than the width literal: {hist[0][1]} / {hist[1][1]}")
+        else:
+            out["hist"] = hist[0][1]
+    # unlinkables
+    with Capture() as cap:
+        unlinkables_data(linkers[2])
+    found = {}
+    phys = _phys_map(cap.rec)
+    for ex in cap.rec:
+        for nm, sql in ex["ctes"]:
+            found[nm] = _norm(sql)
+    if any(nm not in found for nm in DESC_UNL):
+        errors.append(f"unlinkables_data did not emit {[nm for nm in DESC_UNL if nm not in found]}")
+    else:
+        stmts = []
+        for nm in DESC_UNL:
+            sql = found[nm]
+            if nm == DESC_UNL[0]:
+                sql = re.sub(r"__splink__df_self_link_[0-9a-f]+", "self_in", sql)
+                if "round(match_weight, 2)" not in sql or "round(match_probability, 5)" not in sql:
+                    errors.append(f"{nm}: the rounding is no longer round(match_weight, 2) / round(match_probability, 5): {sql[:300]}")
+                sql = sql.replace("round(match_weight, 2)", DESC_RW).replace("round(match_probability, 5)", DESC_RP)
+            stmts.append((nm, sql))
+        out["unl"] = stmts
+    return out
 
 
 # --------------------------------------------------------------------------------------------------------------- EM M-step spec
